@@ -681,16 +681,22 @@ class FieldsJson(FieldValueBase):
     def _parse(cls, parsable):
         try:
             raw_values = json.loads(parsable.decode('ascii'), object_pairs_hook=collections.OrderedDict)
-        except ValueError as e:  # json.decoder.JSONDecodeError is derived from ValueError
+        except (ValueError, RecursionError) as e:  # json.decoder.JSONDecodeError is derived from ValueError
             six.raise_from(InvalidValue(six.ensure_text(parsable, 'ascii', 'replace'), cls, 'value'), e)
+
+        if not isinstance(raw_values, dict):
+            raise InvalidValue(six.ensure_text(parsable, 'ascii', 'replace'), cls, 'value')
 
         attr_fields_dict = attr.fields_dict(cls)
 
-        return cls(**{
-            attribute_name: raw_values[validator_class.get_canonical_name()]
-            for attribute_name, validator_class in cls._get_attr_to_validator_type_dict(attr_fields_dict).items()
-            if validator_class.get_canonical_name() in raw_values
-        }), len(parsable)
+        try:
+            return cls(**{
+                attribute_name: raw_values[validator_class.get_canonical_name()]
+                for attribute_name, validator_class in cls._get_attr_to_validator_type_dict(attr_fields_dict).items()
+                if validator_class.get_canonical_name() in raw_values
+            }), len(parsable)
+        except (TypeError, ValueError, OverflowError) as e:  # mandatory member is missing or a member has an unusable value
+            six.raise_from(InvalidValue(six.ensure_text(parsable, 'ascii', 'replace'), cls, 'value'), e)
 
     def compose(self):
         attr_fields_dict = attr.fields_dict(type(self))
